@@ -23,9 +23,11 @@ extern "C" {
     fn _exit(code: i32) -> !;
 }
 
+const RLIMIT_CPU: i32 = 0;
 const RLIMIT_CORE: i32 = 4;
 const RLIMIT_AS: i32 = 9;
-pub const TIMEOUT_S: u32 = 10;
+pub const TIMEOUT_S: u32 = 10;          // CPU seconds (RLIMIT_CPU: SIGXCPU), so that a loaded machine cannot fake a hang
+pub const WALL_TIMEOUT_S: u32 = 90;     // wall-clock backstop (SIGALRM) for a process that sleeps forever
 pub const AS_LIMIT: u64 = 2 << 30;
 
 #[derive(Clone, Debug)]
@@ -34,7 +36,7 @@ pub struct RunResult { pub code: Option<i32>, pub signal: Option<i32>, pub stder
 fn repo_root() -> String { std::env::var("VERIF_REPO").unwrap_or_else(|_| "/repo".to_string()) }
 
 /// Run `truth_main(args)` in a forked child with cwd `dir`, stdout discarded, stderr captured,
-/// 2 GiB address space, no core dump, SIGALRM after 10 s.
+/// 2 GiB address space, no core dump, SIGXCPU after 10 s of CPU time (SIGALRM after 90 s of wall-clock time).
 pub fn run_forked(dir: &Path, args: &[String]) -> RunResult {
     use std::io::Write;
     let _ = std::io::stdout().flush();
@@ -58,7 +60,8 @@ pub fn run_forked(dir: &Path, args: &[String]) -> RunResult {
             if nfd0 >= 0 { dup2(nfd0, 0); close(nfd0); }
             setrlimit(RLIMIT_AS, &[AS_LIMIT, AS_LIMIT]);
             setrlimit(RLIMIT_CORE, &[0, 0]);
-            alarm(TIMEOUT_S);
+            setrlimit(RLIMIT_CPU, &[TIMEOUT_S as u64, TIMEOUT_S as u64 + 2]);
+            alarm(WALL_TIMEOUT_S);
             std::env::set_var("RUST_BACKTRACE", "0");
             std::env::remove_var("TRUTH_MAP_PATH");
             std::env::remove_var("_TRUTH_DEBUG__TEST");
@@ -101,11 +104,11 @@ pub fn run_exec(dir: &Path, cli: &Path, args: &[String], backtrace: bool) -> Run
     use std::time::{Duration, Instant};
     let errp = dir.join("stderr.txt");
     let errf = match std::fs::File::create(&errp) { Ok(f) => f, Err(e) => return RunResult { code: None, signal: None, stderr: format!("{}", e) } };
-    let script = "ulimit -v 2097152; ulimit -c 0; exec \"$0\" \"$@\"";
+    let script = "ulimit -v 2097152; ulimit -c 0; ulimit -t 10; exec \"$0\" \"$@\"";
     let mut child = match Command::new("sh").arg("-c").arg(script).arg(cli).args(args)
         .current_dir(dir).env("RUST_BACKTRACE", if backtrace { "1" } else { "0" }).env("RUST_LIB_BACKTRACE", "0").env_remove("TRUTH_MAP_PATH").env_remove("_TRUTH_DEBUG__TEST")
         .stdin(Stdio::null()).stdout(Stdio::null()).stderr(Stdio::from(errf)).spawn() { Ok(c) => c, Err(e) => return RunResult { code: None, signal: None, stderr: format!("{}", e) } };
-    let limit = Duration::from_secs(if backtrace { 120 } else { TIMEOUT_S as u64 });
+    let limit = Duration::from_secs(if backtrace { 180 } else { WALL_TIMEOUT_S as u64 });
     let t0 = Instant::now();
     let mut timed_out = false;
     let status = loop {
@@ -240,7 +243,10 @@ pub fn classify(prefix: &str, r: &RunResult, names: &[&str], ctx: &str) -> Outco
         return Outcome { ok: false, class: format!("{}-alloc:{}", prefix, ctx), detail: tail(2), rc };
     }
     if stderr.contains("has overflowed its stack") { return Outcome { ok: false, class: format!("{}-stack-overflow:{}", prefix, ctx), detail: tail(2), rc }; }
-    if r.signal == Some(14) { return Outcome { ok: false, class: format!("{}-timeout:{}", prefix, ctx), detail: format!("no exit within {} s", TIMEOUT_S), rc: 124 }; }
+    if r.signal == Some(24) || r.signal == Some(9) || r.code == Some(128 + 24) || r.code == Some(128 + 9) {
+        return Outcome { ok: false, class: format!("{}-timeout:{}", prefix, ctx), detail: format!("still running after {} s of CPU time", TIMEOUT_S), rc: 124 };
+    }
+    if r.signal == Some(14) { return Outcome { ok: false, class: format!("{}-timeout:{}", prefix, ctx), detail: format!("no exit within {} s (wall clock)", WALL_TIMEOUT_S), rc: 124 }; }
     if let Some(s) = r.signal { return Outcome { ok: false, class: format!("{}-signal{}:{}", prefix, s, ctx), detail: tail(2), rc: 128 + s }; }
     match r.code {
         None => Outcome { ok: false, class: format!("{}-signal:{}", prefix, ctx), detail: tail(2), rc: -1 },
